@@ -64,6 +64,7 @@ type Exec struct {
 	retSites int
 	iterMap map[*ssa.Range]Val
 	requiresPrefix int
+	typeArgFn *ssa.Function
 	loopPreserve map[*loopInfo]map[string]int
 	refined *FuncContract
 	refBinders map[string]Val
